@@ -775,6 +775,13 @@ func (r *c18run) run1(k C18Case) (v *core.Violation) {
 		m := r.mods[k.A]
 		img = append(img[:m[0]+m[1]-1], img[m[0]+m[1]:]...)
 		mustFail = true
+		if k.A == len(r.mods)-1 && bytes.Equal(img[m[0]:m[0]+m[1]], r.good[m[0]:m[0]+m[1]]) {
+			// the last module before the footer, and the byte that follows it equals the
+			// one removed: every module reads as before (the footer is found from the end
+			// of the file), nothing was modified as far as any reader can tell
+			r.c.Probe("truncation-leaves-every-module-as-it-was")
+			return nil
+		}
 	case "swap", "swap-ordinals-256-apart":
 		a, b := r.mods[k.A], r.mods[k.B]
 		tmp := append([]byte(nil), img[a[0]:a[0]+a[1]]...)
